@@ -7,7 +7,7 @@ different cooperating parsers tile the input."""
 import ast
 from ..core import (AnalysisError, short, unparse, iter_own, call_name, call_recv, kwarg,
                     is_self_attr, atomic_facts, parents, enclosing_stmt, enclosing_func)
-from .. import affine
+from .. import affine, symex
 
 COLL = 'pylatexenc.latexnodes._nodescollector'
 NODES = 'pylatexenc.latexnodes.nodes'
@@ -38,6 +38,9 @@ def run(ctx):
     ctx.rule('R01f', 'whitespace conservation: on every path through process_one_token the leading '
                      'whitespace of the token is consumed exactly once (pushed to the pending chars, '
                      'emitted as its own chars node, or given back to the reader) unless it is empty', 6)
+    ctx.rule('R01m', 'verbatim reading: the character that stops the reading is put back into the '
+                     'stream only when the stop condition asks for it (mapping with put_back_char); a '
+                     'delimited verbatim group counts its closing delimiter, so it must stay consumed', 1)
     ctx.rule('R01g', 'paired truncation: where a verbatim string is cut at the front by n characters '
                      'its start position advances by the same n; no other transformation of the '
                      'text; pos_end = pos_start + len(text)', 4)
@@ -224,14 +227,50 @@ def run(ctx):
         _paired_truncation(ctx, vm, clsname, f)
     # the node built from it
     rv = vm.methods('LatexVerbatimBaseParser').get('read_verbatim_content')
-    if rv is not None:
-        t = unparse(rv)
-        ok = 'pos_start = verbatim_info.pos_start' in t and 'pos_end = verbatim_info.pos_end' in t \
-            and 'verbatim_string = self.finalize_verbatim_string(verbatim_string, verbatim_info)' in t
-        ctx.decide('R01g', ok, vm, rv, 'node uses the text and the positions computed by '
-                                       'finalize_verbatim_string',
-                   'read_verbatim_content does not take text and positions from '
-                   'finalize_verbatim_string', construct='read_verbatim_content: uses finalize result')
+    if rv is None:
+        raise AnalysisError('anchor vanished: LatexVerbatimBaseParser.read_verbatim_content')
+    vi = [a.arg for a in rv.args.args][4] if len(rv.args.args) > 4 else 'verbatim_info'
+    cases = symex.sink_cases(rv, lambda c: call_name(c) == 'make_node' and c.args
+                             and unparse(c.args[0]) == 'LatexCharsNode')
+    why = None if cases else 'no LatexCharsNode is built'
+    for cs in cases:
+        ch, po, pe = kwarg(cs.sub, 'chars'), kwarg(cs.sub, 'pos'), kwarg(cs.sub, 'pos_end')
+        d = cs.env.get('#def', {}).get(ch.id) if isinstance(ch, ast.Name) else None
+        if not (isinstance(d, ast.Call) and call_name(d) == 'finalize_verbatim_string'):
+            why = 'the node text %s is not the result of finalize_verbatim_string' % short(ch)
+        elif po is None or unparse(po) != vi + '.pos_start' or pe is None or unparse(pe) != vi + '.pos_end':
+            why = 'the node span is (%s, %s), not (%s.pos_start, %s.pos_end) as set by ' \
+                  'finalize_verbatim_string' % (short(po), short(pe), vi, vi)
+    ctx.decide('R01g', why is None, vm, rv, 'node uses the text and the positions computed by '
+                                            'finalize_verbatim_string',
+               'read_verbatim_content: %s' % why, construct='read_verbatim_content: uses finalize result')
+    # R01m: the stopping character is handed back to the reader only on request
+    pb = symex.sink_cases(rv, lambda c: call_name(c) in ('move_to_pos_chars', 'move_to_token', '_advance_to_pos'))
+    stop_syms = set()
+    for cs in pb or symex.sink_cases(rv, lambda c: True)[:1]:
+        for sym, d in cs.env.get('#def', {}).items():
+            if isinstance(d, ast.Call) and call_name(d) == 'new_char_check_stop_condition':
+                stop_syms.add(sym)
+    bad = None
+    for cs in pb:
+        facts = set()
+        for t, pol in cs.conds:
+            for a, ap in symex._atoms(t, pol):
+                facts.add((unparse(a), ap))
+        req = [S for S in stop_syms if ("%s['put_back_char']" % S, True) in facts and (
+            ('%s is not True' % S, True) in facts or ('%s is True' % S, False) in facts or
+            ('isinstance(%s, dict)' % S, True) in facts)]
+        if not req:
+            bad = cs
+            break
+    ctx.decide('R01m', bad is None and bool(stop_syms), vm, (bad.node if bad else rv),
+               'the reader is moved back over the stopping character only when the stop condition '
+               'returned a mapping with put_back_char set (%d site path(s))' % len(pb),
+               'read_verbatim_content moves the reader back on the path [%s] where the stop condition '
+               'did not ask for it (a plain True means: the stopping character is consumed): the '
+               'closing delimiter counted into the group node is read again, nodes overlap'
+               % (' & '.join(bad.cond_src())[:200] if bad else 'stop-condition result not found'),
+               construct='read_verbatim_content: put back on request only')
 
     # ------------------------------------------------------------ R01h
     n_rec = 0
